@@ -86,6 +86,19 @@ func Index(
 						return err
 					}
 
+					// Step over the zero blocks of a trailer's padding (i.e. the one GNU tar adds) one block at a time, so
+					// that the reader below starts exactly at the next header instead of in the middle of a record
+					skipped, err := skipZeroBlocks(reader.Drive)
+					if err != nil {
+						return err
+					}
+
+					if skipped > 0 {
+						totalBlocks := record*int64(pipes.RecordSize) + block + skipped
+						record = totalBlocks / int64(pipes.RecordSize)
+						block = totalBlocks - (record * int64(pipes.RecordSize))
+					}
+
 					tr = tar.NewReader(reader.Drive)
 
 					hdr, err = tr.Next()
@@ -238,6 +251,40 @@ func Index(
 	}
 
 	return nil
+}
+
+// skipZeroBlocks advances the drive over blocks that only contain zeros and returns how many it skipped; the drive is
+// left at the start of the first block that contains something else (or at the end of the drive)
+func skipZeroBlocks(drive io.ReadSeeker) (int64, error) {
+	skipped := int64(0)
+	buf := make([]byte, config.MagneticTapeBlockSize)
+	for {
+		n, err := io.ReadFull(drive, buf)
+		if err == io.EOF || err == io.ErrUnexpectedEOF {
+			// Leave what is left (if anything) to the tar reader
+			if _, err := drive.Seek(-int64(n), io.SeekCurrent); err != nil {
+				return skipped, err
+			}
+
+			return skipped, nil
+		}
+
+		if err != nil {
+			return skipped, err
+		}
+
+		for _, b := range buf {
+			if b != 0 {
+				if _, err := drive.Seek(-int64(n), io.SeekCurrent); err != nil {
+					return skipped, err
+				}
+
+				return skipped, nil
+			}
+		}
+
+		skipped++
+	}
 }
 
 func indexHeader(
